@@ -4,14 +4,177 @@
    non-vacuity examples.  The model (C17/Model.v) is tied to /repo/osmgeojson by the
    correspondence harness (harness/cmd/c17); UninterestingTags is regenerated from /repo/tag.go
    on every run (gen/GenTags.v).  [join] and [ring_of] (internal/mputil, property C16) are
-   universally quantified. *)
-From Coq Require Import ZArith String List Bool.
-From Verif Require Import C17.Model C17.Spec C17.Mputil C17.Proofs.
+   universally quantified in every theorem; the executable instance C17/Mputil.v is used by the
+   examples and the correspondence check. *)
+From Coq Require Import ZArith String List Bool Lia.
+From Verif Require Import C17.Model C17.Spec C17.Mputil C17.Proofs C17.ProofsOpts C17.ProofsGeom
+     C17.ProofsRoute C17.Examples C17.ProofsWitness.
+From VerifGen Require Import GenTags.
 Import ListNotations.
 Open Scope Z_scope.
 
-(* determinism: the conversion is a function of options and data (plus the correspondence of
-   repeated runs in the harness) *)
+(* ---------------------------------------------------------------------------------------
+   1. At most one feature per input element.
+      FULL STATEMENT (false of the code, see C17_at_most_one_feature_refuted):
+        forall o d, ids_unique d -> NoDup (map fkey (convert join ring_of o d)).
+      Proved with the hypothesis the proof discovers: no way is the adoption candidate (the
+      single outer-role way member of a multipolygon/boundary relation without own tags) of
+      two relations.  [adoption_unique] is a predicate on the input alone; the harness assigns
+      the known-finding class by its negation. *)
+Theorem C17_at_most_one_feature_per_element : forall join ring_of o d,
+  ids_unique d -> adoption_unique d -> NoDup (map fkey (convert join ring_of o d)).
+Proof. exact at_most_one_feature_per_element. Qed.
+Print Assumptions C17_at_most_one_feature_per_element.
+
+(* the unconditional claim is false of the faithful model: two old-style multipolygon
+   relations sharing one outer way yield two features way/10 (replayed on the implementation:
+   harness corpus case sharedOuter, known-finding class shared-outer-old-style) *)
+Theorem C17_at_most_one_feature_refuted :
+  exists d, ids_unique d /\ ~ NoDup (map fkey (convert Mputil.join Mputil.ring_of o0 d)).
+Proof. exact at_most_one_feature_refuted. Qed.
+Print Assumptions C17_at_most_one_feature_refuted.
+
+(* non-vacuity: d_rich meets both hypotheses and converts to nine features *)
+Example C17_at_most_one_nonvacuous :
+  ids_unique d_rich /\ adoption_unique d_rich /\
+  List.length (convert Mputil.join Mputil.ring_of o0 d_rich) = 9%nat.
+Proof.
+  split; [|split; [|vm_compute; reflexivity]].
+  - unfold ids_unique. cbn. repeat split; repeat (constructor; [cbn; intuition discriminate|]); constructor.
+  - unfold adoption_unique. vm_compute. constructor.
+Qed.
+
+(* ---------------------------------------------------------------------------------------
+   2. Nodes: a point for every located node that is not part of a way, or has an interesting
+      tag, or is a relation member — and for no other node; the feature is exactly the node's
+      point with its type, id, tags, meta and memberships. *)
+Theorem C17_node_feature_iff : forall join ring_of o d n,
+  In n (nodes d) -> NoDup (map n_id (nodes d)) ->
+  ((exists f, In f (convert join ring_of o d) /\ fkey f = (TNode, n_id n)) <-> node_rule d n) /\
+  (forall f, In f (convert join ring_of o d) -> fkey f = (TNode, n_id n) -> f = node_point o d n).
+Proof. exact node_feature_iff. Qed.
+Print Assumptions C17_node_feature_iff.
+
+Example C17_node_rule_nonvacuous :
+  (* node 8: free, tagged -> point; node 1: untagged way member -> none; node 5: untagged way
+     member but a relation member -> point; node 15: at the origin without version -> none *)
+  map (fun f => f_ref f) (node_features o0 d_rich) = [2; 5; 8].
+Proof. vm_compute. reflexivity. Qed.
+
+(* ---------------------------------------------------------------------------------------
+   3. Ways: every way that is not absorbed by a relation and has at least two resolvable
+      coordinates yields a feature with its id and tags; the geometry is the resolvable
+      coordinates in order (a line), or for area ways one ring that is closed, has
+      non-negative signed area (counter-clockwise; never clockwise for orb's own test) and is
+      those coordinates, closed, in one of the two directions.  Conversely every way-pass
+      feature has that form. *)
+Theorem C17_way_geometry : forall join ring_of o d w,
+  In w (ways d) -> memZ (w_id w) (skippable join ring_of o d) = false ->
+  (2 <= List.length (spec_coords d w))%nat ->
+  exists f, In f (convert join ring_of o d) /\ fkey f = (TWay, w_id w) /\
+            f_tainted f = unresolved d w /\ f_tags f = tags_map (w_tags w) /\
+            way_geometry_spec w (spec_coords d w) (f_geom f).
+Proof. exact way_geometry. Qed.
+Print Assumptions C17_way_geometry.
+
+Theorem C17_way_pass_feature : forall join ring_of o d f,
+  In f (way_features join ring_of o d) ->
+  exists w, In w (ways d) /\ memZ (w_id w) (skippable join ring_of o d) = false /\
+            (2 <= List.length (spec_coords d w))%nat /\ fkey f = (TWay, w_id w) /\
+            f_tainted f = unresolved d w /\ way_geometry_spec w (spec_coords d w) (f_geom f).
+Proof. exact way_pass_feature. Qed.
+Print Assumptions C17_way_pass_feature.
+
+Example C17_way_geometry_nonvacuous :
+  (* way 13 of d_rich is an area way given clockwise: the ring comes out reversed *)
+  exists w, In w (ways d_rich) /\ w_area w = true /\
+            memZ (w_id w) (skippable Mputil.join Mputil.ring_of o0 d_rich) = false /\
+            spec_coords d_rich w = [(12, 12); (14, 12); (14, 14); (12, 12)] /\
+            shoelace (spec_coords d_rich w) > 0.
+Proof.
+  exists (wy 13 [("natural", "water")]%string true [9; 13; 14; 9]).
+  split; [cbn; tauto|]. vm_compute. repeat split; reflexivity.
+Qed.
+
+(* ---------------------------------------------------------------------------------------
+   4. Route relations: the feature carries the relation's id and tags, is tainted exactly when
+      a member way or one of its nodes is missing, and its line geometry is the join of the
+      member ways' coordinate lines — hence preserves every segment whenever [join] conserves
+      edges (property C16's join_conserves; here an explicit hypothesis). *)
+Theorem C17_route_feature_geometry : forall join ring_of o d r f,
+  String.eqb (tag_find (r_tags r) "type") "route" = true ->
+  snd (rel_result join ring_of o d r) = Some f ->
+  fkey f = (TRel, r_id r) /\ f_tags f = tags_map (r_tags r) /\ f_tainted f = route_tainted d r /\
+  geom_lines (f_geom f) = Some (map ms_line (join (flat_map rs_lines (map (route_step d) (r_members r))))).
+Proof. exact route_feature_geometry. Qed.
+Print Assumptions C17_route_feature_geometry.
+
+Theorem C17_route_preserves_segments : forall join ring_of o d r f,
+  join_conserves_edges join ->
+  String.eqb (tag_find (r_tags r) "type") "route" = true ->
+  snd (rel_result join ring_of o d r) = Some f ->
+  route_geom_ok d r f = true.
+Proof. exact route_preserves_segments. Qed.
+Print Assumptions C17_route_preserves_segments.
+
+Example C17_route_nonvacuous :
+  exists f, nth_error (convert Mputil.join Mputil.ring_of o0 d_rich) 0 = Some f /\
+            f_geom f = GLine [(30, 10); (32, 11); (35, 10)] /\ f_tainted f = true.
+Proof. eexists. split; [vm_compute; reflexivity|]. split; reflexivity. Qed.
+
+(* ---------------------------------------------------------------------------------------
+   5. Options.  NoID, NoMeta, NoRelationMembership: the output with the option is the output
+      without it with exactly that field of every feature erased; order, number and every other
+      field are unchanged. *)
+Theorem C17_option_NoID : forall join ring_of o d,
+  convert join ring_of (set_noID true o) d = map erase_id (convert join ring_of (set_noID false o) d).
+Proof. exact option_NoID. Qed.
+Print Assumptions C17_option_NoID.
+
+Theorem C17_option_NoMeta : forall join ring_of o d,
+  convert join ring_of (set_noMeta true o) d = map erase_meta (convert join ring_of (set_noMeta false o) d).
+Proof. exact option_NoMeta. Qed.
+Print Assumptions C17_option_NoMeta.
+
+Theorem C17_option_NoRelationMembership : forall join ring_of o d,
+  convert join ring_of (set_noRelM true o) d = map erase_rels (convert join ring_of (set_noRelM false o) d).
+Proof. exact option_NoRelationMembership. Qed.
+Print Assumptions C17_option_NoRelationMembership.
+
+Example C17_options_nonvacuous :
+  (* the erased fields are present in the baseline run *)
+  forallb (fun f => match f_id f, f_meta f, f_rels f with Some _, Some _, Some _ => true | _, _, _ => false end)
+          (convert Mputil.join Mputil.ring_of o0 d_rich) = true /\
+  convert Mputil.join Mputil.ring_of (set_noID true o0) d_rich <> convert Mputil.join Mputil.ring_of o0 d_rich.
+Proof. split; [vm_compute; reflexivity|]. vm_compute. discriminate. Qed.
+
+(* IncludeInvalidPolygons only adds to / extends relation features.
+   FULL STATEMENT (wanted): additionally every ring of the geometry without the option is still
+   present with it (Spec.rings_sub); that part is checked by judgement 2 of the correspondence
+   run on every case (Spec.extends) but not proved: with the option, an inner ring may be
+   claimed by an invalid outer ring that precedes the valid one that held it before, so only
+   ring conservation — not "each polygon keeps its holes" — can hold, and its proof needs the
+   multiset bookkeeping of addToMultiPolygon, which is not done.
+   Proved (_partial): the skippable set, the way pass and the node pass are identical; a
+   relation that is not a multipolygon/boundary gives the identical result; every relation
+   feature present without the option is present with it, equal up to geometry, and a changed
+   geometry is again a (multi)polygon. *)
+Theorem C17_option_IncludeInvalidPolygons_partial : forall join ring_of o d,
+  skippable join ring_of (set_incl true o) d = skippable join ring_of (set_incl false o) d /\
+  way_features join ring_of (set_incl true o) d = way_features join ring_of (set_incl false o) d /\
+  node_features (set_incl true o) d = node_features (set_incl false o) d /\
+  forall r,
+    (is_mp r = false ->
+     rel_result join ring_of (set_incl true o) d r = rel_result join ring_of (set_incl false o) d r) /\
+    (forall f, snd (rel_result join ring_of (set_incl false o) d r) = Some f ->
+       exists g, snd (rel_result join ring_of (set_incl true o) d r) = Some (with_geom f g) /\
+                 (g = f_geom f \/ (is_mp_geom g = true /\ is_mp_geom (f_geom f) = true))).
+Proof. exact option_IncludeInvalidPolygons_partial. Qed.
+Print Assumptions C17_option_IncludeInvalidPolygons_partial.
+
+(* ---------------------------------------------------------------------------------------
+   6. Determinism: the conversion is a function of options and data (the implementation's
+      repeated runs are compared by the harness on every case). *)
 Theorem C17_convert_deterministic : forall join ring_of o1 o2 d1 d2,
   o1 = o2 -> d1 = d2 -> convert join ring_of o1 d1 = convert join ring_of o2 d2.
 Proof. intros; subst; reflexivity. Qed.
